@@ -244,7 +244,7 @@ PROPS = {
         'not_reached': ['build_table (counting and merging: C07)', 'parsing of kmers.counts', 'thread-count independence rests on rayon collect order (assumed)'],
     },
     'C16': {
-        'units': ['batch_loops', 'min_callsite', 'minimiser', 'kmer_minimiser'], 'deps': [], 'replay': 'c16',
+        'units': ['batch_loops', 'min_callsite', 'minimiser', 'kmer_minimiser'], 'deps': ['kmer_gen', 'oligo_vec', 'cov_vec', 'cgr', 'oligocgr_vec', 'count_route', 'mmap_rows', 'posmaps'], 'replay': 'c16',
         'level_text': 'Every Verus bundle includes absence of panics (overflow, out-of-bounds, unwrap on None, unreachable panic!) for ALL inputs meeting the stated precondition. For C16 the '
                       'deciding bundles are: the format-sniffing statements (3 copies) with a buffer of ANY length including 0; the four lifted batch loops (one row rendered per record, including '
                       'records with no bases and the final flush); the two minimiser call sites of misc (window size 0, record shorter than m) against the precondition of MinimiserGenerator::new; '
@@ -301,7 +301,7 @@ PROPS = {
         'not_reached': ['worker interleavings and chunk boundaries', 'merge(): parsing chunk files, summing, deleting temporary files', 'init(): partition count from float arithmetic'],
     },
     'C15': {
-        'units': ['cli_wiring'], 'deps': [], 'replay': None,
+        'units': ['cli_wiring'], 'deps': [], 'replay': 'c15',
         'level_text': 'Narrow claim. Verus proves for the lifted option-to-setter statements of the oligo, coverage, counter and minimiser arms of cli(), against stub computers whose setters record a ghost configuration: '
                       'csv/tsv/spc change only the delimiter (",", tab, space), the header flag only sets header, counts only flips normalisation, --acgt only sets the rendering flag, the thread option is applied iff > 0 and touches nothing else, '
                       'k / bins / memory / alt-input are passed through unchanged; and every value accepted by the clap value_parser ranges (read from the attribute text on every run) satisfies the preconditions of the library '
